@@ -239,6 +239,10 @@ func (r *DecodeResult) NestedResult(tag int) (*DecodeResult, error) {
 	if err != nil {
 		return nil, err
 	}
+	if tmp == nil {
+		// an empty nested message decodes to a nil result, like Decode on empty input
+		return nil, nil
+	}
 	tmp.skipClose = true
 	r.closers = append(r.closers, tmp)
 	return tmp, nil
@@ -274,10 +278,14 @@ func (r *DecodeResult) NestedResults(tag int) ([]*DecodeResult, error) {
 		if err != nil {
 			return nil, err
 		}
-		res.skipClose = true
+		if res != nil {
+			// an empty nested message decodes to a nil result, like Decode on empty input:
+			// nothing to close
+			res.skipClose = true
+			r.closers = append(r.closers, res)
+		}
 		results = append(results, res)
 	}
-	r.closers = append(r.closers, results...)
 	return results, nil
 }
 
